@@ -120,9 +120,61 @@ def random_grammar(rng, idx, max_nt=4, max_t=4, max_prods=9, max_rhs=4, p_empty=
     return {"id": "r%05d" % idx, "ts": used_t, "nts": nts, "starts": st, "prods": prods}
 
 
+def lr1_not_lalr(rng, idx):
+    """members of the classical families that are LR(1) but not LALR(1) (state
+    splitting is needed), with random decoration: the construction algorithms
+    only differ on such grammars"""
+    a, b, c, d, e = TS[0], TS[1], TS[2], TS[3], TS[4]
+    fam = rng.randrange(4)
+    nts = ["S", "A", "B"]
+    if fam == 0:
+        prods = [("S", [a, "A", a]), ("S", [b, "A", b]), ("S", [a, "B", b]), ("S", [b, "B", a]), ("A", [e]), ("B", [e])]
+    elif fam == 1:
+        prods = [("S", [a, "A", c]), ("S", [a, "B", d]), ("S", [b, "A", d]), ("S", [b, "B", c]), ("A", [e]), ("B", [e])]
+    elif fam == 2:   # longer common suffix before the split decision
+        prods = [("S", [a, "A", a]), ("S", [b, "A", b]), ("S", [a, "B", b]), ("S", [b, "B", a]),
+                 ("A", [e, e]), ("A", [e, "A"]), ("B", [e, e])]
+    else:            # the split states are reached through a shared nonterminal
+        nts = ["S", "A", "B", "C"]
+        prods = [("S", [a, "A", a]), ("S", [b, "A", b]), ("S", [a, "B", b]), ("S", [b, "B", a]),
+                 ("A", ["C"]), ("B", ["C", e]), ("C", [e]), ("C", [e, "C"])]
+    ts = [a, b, c, d, e]
+    r = rng.random()
+    if r < 0.3:      # wrap: a list of S
+        nts = nts + ["D"]
+        prods = [("D", ["S"]), ("D", ["D", c if fam != 1 else TS[5], "S"])] + prods
+        starts = ["D"]
+        if fam == 1:
+            ts = ts + [TS[5]]
+    elif r < 0.5:    # an optional prefix
+        nts = nts + ["D"]
+        prods = [("D", ["S"]), ("D", [d if fam != 1 else TS[5], "S"])] + prods
+        starts = ["D"]
+        if fam == 1:
+            ts = ts + [TS[5]]
+    else:
+        starts = ["S"]
+    if starts != ["S"]:
+        # the start symbol is called S everywhere else
+        ren = {"S": "E", "D": "S"}
+        nts = [ren.get(x, x) for x in nts]
+        prods = [(ren.get(l, l), [ren.get(x, x) for x in r_]) for l, r_ in prods]
+        starts = ["S"]
+    used = [t for t in ts if any(t in r_ for _, r_ in prods)]
+    order = ["S"] + [n for n in nts if n != "S"]
+    return {"id": "x%05d" % idx, "ts": used, "nts": order, "starts": starts,
+            "prods": [{"lhs": l, "rhs": list(r_)} for l, r_ in prods]}
+
+
 def random_population(seed, n, **kw):
     rng = random.Random(seed)
-    return [random_grammar(rng, i, starts=(2 if rng.random() < 0.2 else 1), **kw) for i in range(n)]
+    out = []
+    for i in range(n):
+        if rng.random() < 0.06:
+            out.append(lr1_not_lalr(rng, i))
+        else:
+            out.append(random_grammar(rng, i, starts=(2 if rng.random() < 0.2 else 1), **kw))
+    return out
 
 
 def render_plain(g, algo_attr="", codegen_attr=""):
